@@ -14,7 +14,6 @@ import (
 	"path/filepath"
 	"sort"
 	"strings"
-	"time"
 )
 
 type replayVec struct {
@@ -150,15 +149,33 @@ func runNative(cs *CheckSpec, pkgPath string, funcs []string, vecs []replayVec, 
 	vd, _ := json.Marshal(vecs)
 	os.WriteFile(vecFile, vd, 0o644)
 
-	cmd := exec.Command("go", "test", "-v", "-vet=off", "-count=1", "-overlay", ovFile, "-run", "^TestZZReplay$", "-timeout", "20m", "./"+rel)
-	cmd.Dir = repoDir
-	cmd.Env = append(goEnv(), "ZZRT_VECTORS="+vecFile)
 	var outb bytes.Buffer
-	cmd.Stdout = &outb
-	cmd.Stderr = &outb
-	start := time.Now()
-	runErr := cmd.Run()
-	_ = start
+	var runErr error
+	if st, err := os.Stat(pkgDir); err != nil || !st.IsDir() {
+		// the package exists only in the overlay: go test cannot chdir into it, so build
+		// the test binary and run it from the work directory
+		bin := filepath.Join(work, "replay_"+tag+".test")
+		cmd := exec.Command("go", "test", "-c", "-o", bin, "-vet=off", "-overlay", ovFile, "./"+rel)
+		cmd.Dir = repoDir
+		cmd.Env = goEnv()
+		cmd.Stdout = &outb
+		cmd.Stderr = &outb
+		if runErr = cmd.Run(); runErr == nil {
+			run := exec.Command(bin, "-test.v", "-test.run", "^TestZZReplay$", "-test.timeout", "20m")
+			run.Dir = work
+			run.Env = append(goEnv(), "ZZRT_VECTORS="+vecFile)
+			run.Stdout = &outb
+			run.Stderr = &outb
+			runErr = run.Run()
+		}
+	} else {
+		cmd := exec.Command("go", "test", "-v", "-vet=off", "-count=1", "-overlay", ovFile, "-run", "^TestZZReplay$", "-timeout", "20m", "./"+rel)
+		cmd.Dir = repoDir
+		cmd.Env = append(goEnv(), "ZZRT_VECTORS="+vecFile)
+		cmd.Stdout = &outb
+		cmd.Stderr = &outb
+		runErr = cmd.Run()
+	}
 	var res []replayResult
 	sc := bufio.NewScanner(&outb)
 	sc.Buffer(make([]byte, 1<<20), 1<<26)
